@@ -41,7 +41,7 @@ Proof.
 Qed.
 
 Definition block_spec (b : Z) (en : option Z) (ok : bool) (txt : text) (cs : list cue) : Prop :=
-  cues_at b en cs /\ (ok = true -> vis (flat_map cue_chars cs) = vis txt).
+  cues_at b en cs /\ (ok = true -> visc (flat_map cue_chars cs) = visc txt).
 
 Lemma srt_blocks_spec fmt b en : forall l,
   Forall (fun e => forall n cs n', srt_block fmt b en e n = (cs, n') -> block_spec b en (srt_block_ok e) (leaves_text e) cs) l ->
@@ -53,7 +53,7 @@ Proof.
     destruct (srt_block fmt b en e n) as [x n1] eqn:Ex. destruct (srt_blocks fmt b en l n1) as [y n2] eqn:Ey.
     injection H as <- <-. destruct (He _ _ _ Ex) as [A1 A2]. destruct (IH Hl' _ _ _ Ey) as [B1 B2].
     split; [apply cues_at_app; assumption|]. cbn [forallb flat_map]. intros Hok. apply andb_true_iff in Hok as [O1 O2].
-    rewrite flat_map_app, !vis_app, (A2 O1), (B2 O2). reflexivity.
+    rewrite flat_map_app, !visc_app, (A2 O1), (B2 O2). reflexivity.
 Qed.
 
 Theorem srt_block_spec fmt b en : forall e n cs n',
@@ -61,13 +61,12 @@ Theorem srt_block_spec fmt b en : forall e n cs n',
 Proof.
   induction e as [a cs0 IH] using elem_ind2. intros n cs n' H. rewrite srt_block_node in H. rewrite srt_block_ok_node, leaves_text_node.
   destruct (e_kind a) eqn:Ek.
-  all: try (injection H as <- <-; split; [constructor|]; intros Hok; rewrite leaves_text_node, Ek in Hok;
-            rewrite (is_nil_eq _ Hok); reflexivity).
+  all: try (injection H as <- <-; split; [constructor|]; intros Hok; apply is_nil_eq in Hok; try rewrite Hok; reflexivity).
   - (* div *) exact (srt_blocks_spec fmt b en cs0 IH _ _ _ H).
   - (* p *)
     cbv zeta in H. set (c := mkCue (Some (n + 1)) b en (flat_map (srt_inline fmt) cs0) None None) in H.
-    assert (Hc : forallb inline_ok cs0 = true -> vis (cue_chars c) = vis (flat_map leaves_text cs0)).
-    { intros Hok. unfold cue_chars, c. cbn [c_items]. rewrite chars_of_flat_map, !vis_flat_map. apply flat_map_ext_in. intros x Hx.
+    assert (Hc : forallb inline_ok cs0 = true -> visc (cue_chars c) = visc (flat_map leaves_text cs0)).
+    { intros Hok. unfold cue_chars, c. cbn [c_items]. rewrite chars_of_flat_map, !visc_flat_map. apply flat_map_ext_in. intros x Hx.
       apply srt_inline_text. rewrite forallb_forall in Hok. apply Hok, Hx. }
     destruct (only_whitespace (cue_text esc_none c)) eqn:Ew; injection H as <- <-.
     + split; [constructor|]. intros Hok. rewrite <- (Hc Hok). symmetry. apply (blank_cue esc_none c esc_none_keeps Ew).
@@ -111,7 +110,7 @@ Proof.
   cbn [bind] in H. destruct (vtt_inlines (echildren p) (v_css st)) as [items css] eqn:Ei.
   set (c := mkCue (if cue_id cfg then Some (v_counter st + 1) else None) b en items line
                   (if text_align cfg then textalign_setting (eattrs p) else None)) in H.
-  assert (Hc : vtt_p_ok p = true -> vis (cue_chars c) = vis (leaves_text p)).
+  assert (Hc : vtt_p_ok p = true -> visc (cue_chars c) = visc (leaves_text p)).
   { intros Hok. unfold vtt_p_ok in Hok. apply andb_true_iff in Hok as [O1 O2]. unfold cue_chars, c. cbn [c_items].
     pose proof (vtt_inlines_text (echildren p) (v_css st) O2) as G. rewrite Ei in G. cbn [fst] in G. rewrite G.
     rewrite (leaves_text_container p O1). reflexivity. }
@@ -128,7 +127,7 @@ Proof.
     destruct (vtt_process_ps cfg ra b en ps s1) as [[y s2]|] eqn:Eps; [|discriminate]. cbn [bind snd fst] in H. injection H as <- <-.
     destruct (vtt_process_p_spec _ _ _ _ _ _ _ _ Ep) as [A1 A2]. destruct (IH _ _ _ Eps) as [B1 B2].
     split; [apply cues_at_app; assumption|]. cbn [forallb flat_map]. intros Hok. apply andb_true_iff in Hok as [O1 O2].
-    rewrite flat_map_app, !vis_app, (A2 O1), (B2 O2). reflexivity.
+    rewrite flat_map_app, !visc_app, (A2 O1), (B2 O2). reflexivity.
 Qed.
 Lemma vtt_region_text r : vtt_region_ok r = true ->
   forallb vtt_p_ok (flat_map echildren (flat_map echildren (echildren r))) = true /\
@@ -138,9 +137,9 @@ Proof.
   - apply forallb_forall. intros p Hp. apply in_flat_map in Hp as (dv & Hdv & Hp). apply in_flat_map in Hdv as (bd & Hbd & Hdv).
     specialize (Hb bd Hbd). apply andb_true_iff in Hb as [_ Hb]. rewrite forallb_forall in Hb. specialize (Hb dv Hdv).
     apply andb_true_iff in Hb as [_ Hb]. rewrite forallb_forall in Hb. apply Hb, Hp.
-  - rewrite (leaves_text_container r Hr), !flat_map_flat_map. apply flat_map_ext_in. intros bd Hbd.
+  - rewrite (leaves_text_container r Hr). do 2 rewrite flat_map_flat_map. apply flat_map_ext_in. intros bd Hbd.
     specialize (Hb bd Hbd). apply andb_true_iff in Hb as [Hc Hb]. rewrite forallb_forall in Hb.
-    rewrite (leaves_text_container bd Hc), flat_map_flat_map. apply flat_map_ext_in. intros dv Hdv.
+    rewrite (leaves_text_container bd Hc). apply flat_map_ext_in. intros dv Hdv.
     specialize (Hb dv Hdv). apply andb_true_iff in Hb as [Hd _]. symmetry. apply leaves_text_container, Hd.
 Qed.
 Theorem vtt_regions_spec cfg b en : forall regions st cs st',
@@ -154,7 +153,7 @@ Proof.
     cbn [bind snd fst] in H. injection H as <- <-.
     destruct (vtt_process_ps_spec _ _ _ _ _ _ _ _ Ep) as [A1 A2]. destruct (IH _ _ _ Er) as [B1 B2].
     split; [apply cues_at_app; assumption|]. unfold vtt_sees_all. cbn [forallb flat_map]. intros Hok. apply andb_true_iff in Hok as [O1 O2].
-    destruct (vtt_region_text r O1) as [P1 P2]. rewrite flat_map_app, !vis_app, (A2 P1), P2, (B2 O2). reflexivity.
+    destruct (vtt_region_text r O1) as [P1 P2]. rewrite flat_map_app, !visc_app, (A2 P1), P2, (B2 O2). reflexivity.
 Qed.
 
 (* ---- the loops over the snapshot sequence ---------------------------------------------------------------------------- *)
